@@ -51,9 +51,17 @@ NewRecordF(ms, h, k, idn, pairs) ==
 
 FormalPairs(fs) == [i \in 1..Len(fs) |-> <<ProvAttrName(fs[i][1]), fs[i][2]>>]
 
+(* the typed convenience factories: revision / quotation / primary_source (a derivation) and       *)
+(* collection (an entity) create the base record and then assert the PROV type on it              *)
+SubFactoryType == [revision |-> "Revision", quotation |-> "Quotation", primary_source |-> "PrimarySource",
+                   collection |-> "Collection"]
 DoNewRec(ms, a) ==
-  NewRecordF(ms, a.h, a.k, IF a.id = <<>> THEN <<>> ELSE <<DerefName(ms, a.id[1])>>,
-             DerefPairs(ms, FormalPairs(a.formals) \o a.extras))
+  LET r == NewRecordF(ms, a.h, a.k, IF a.id = <<>> THEN <<>> ELSE <<DerefName(ms, a.id[1])>>,
+                      DerefPairs(ms, FormalPairs(a.formals) \o a.extras))
+  IN IF a.via \notin DOMAIN SubFactoryType \/ r.exc # "none" THEN r
+     ELSE LET n == Len(r.st.con[a.h].recs) IN
+          [r EXCEPT !.st.con[a.h].recs[n].attrs =
+                       AddPair(@, ProvQ("type"), [t |-> "qn", q |-> QN("prov", ProvNS, <<SubFactoryType[a.via]>>)])]
 
 DoAddAttrs(ms, a) ==
   LET c == ms.con[a.r.c]
